@@ -229,28 +229,28 @@ Example C05_parser_spans_nonvacuous :
 Proof. vm_compute. split; reflexivity. Qed.
 
 (* ---- the span algebra of codemap.rs as translated from the source on this run (Extracted/RsSpan.v) ------------- *)
-From SV Require Rs.Prelude Rs.Proofs Extracted.RsSpan.
+From SV Require Rs.Prelude Rs.ProofsSpan Extracted.RsSpan.
 
 (* Span::merge, with which the parser builds the span of every compound node, encloses both arguments exactly
    (min of the begins, max of the ends), keeps begin <= end, and contains every position either argument contains *)
 Theorem C05_source_span_merge : forall a b,
   SV.Rs.Prelude.f_begin (SV.Extracted.RsSpan.rs_span_merge a b) = Z.min (SV.Rs.Prelude.f_begin a) (SV.Rs.Prelude.f_begin b) /\
   SV.Rs.Prelude.f_end (SV.Extracted.RsSpan.rs_span_merge a b) = Z.max (SV.Rs.Prelude.f_end a) (SV.Rs.Prelude.f_end b) /\
-  (SV.Rs.Proofs.span_wf a -> SV.Rs.Proofs.span_wf b -> SV.Rs.Proofs.span_wf (SV.Extracted.RsSpan.rs_span_merge a b)) /\
+  (SV.Rs.ProofsSpan.span_wf a -> SV.Rs.ProofsSpan.span_wf b -> SV.Rs.ProofsSpan.span_wf (SV.Extracted.RsSpan.rs_span_merge a b)) /\
   (forall p, SV.Extracted.RsSpan.rs_span_contains a p = true \/ SV.Extracted.RsSpan.rs_span_contains b p = true ->
              SV.Extracted.RsSpan.rs_span_contains (SV.Extracted.RsSpan.rs_span_merge a b) p = true).
-Proof. exact SV.Rs.Proofs.span_merge_spec. Qed.
+Proof. exact SV.Rs.ProofsSpan.span_merge_spec. Qed.
 
 Theorem C05_source_span_merge_algebra : forall a b c,
   SV.Extracted.RsSpan.rs_span_merge a b = SV.Extracted.RsSpan.rs_span_merge b a /\
   SV.Extracted.RsSpan.rs_span_merge (SV.Extracted.RsSpan.rs_span_merge a b) c =
     SV.Extracted.RsSpan.rs_span_merge a (SV.Extracted.RsSpan.rs_span_merge b c) /\
   SV.Extracted.RsSpan.rs_span_merge a a = a.
-Proof. exact SV.Rs.Proofs.span_merge_algebra. Qed.
+Proof. exact SV.Rs.ProofsSpan.span_merge_algebra. Qed.
 
 (* Span::intersects (breakpoint and IDE range queries) is interval overlap with inclusive ends, and symmetric *)
-Theorem C05_source_span_intersects : forall a b, SV.Rs.Proofs.span_wf a -> SV.Rs.Proofs.span_wf b ->
+Theorem C05_source_span_intersects : forall a b, SV.Rs.ProofsSpan.span_wf a -> SV.Rs.ProofsSpan.span_wf b ->
   (SV.Extracted.RsSpan.rs_span_intersects a b = true <->
      exists p, SV.Extracted.RsSpan.rs_span_contains a p = true /\ SV.Extracted.RsSpan.rs_span_contains b p = true) /\
   SV.Extracted.RsSpan.rs_span_intersects a b = SV.Extracted.RsSpan.rs_span_intersects b a.
-Proof. exact SV.Rs.Proofs.span_intersects_spec. Qed.
+Proof. exact SV.Rs.ProofsSpan.span_intersects_spec. Qed.
